@@ -44,6 +44,8 @@ LimSmall == {<<1, 1>>, <<0, 1>>, <<1, 0>>}
 LimMixed == {<<NoLim, NoLim>>, <<1, 1>>, <<2, 1>>, <<0, NoLim>>}
 LimTwo == {<<2, 2>>, <<1, 2>>}
 LimLeak == {<<2, 1>>}
+\* only one direction limited (the code tracks a direction only when it is limited)
+LimAsym == {<<NoLim, 1>>, <<1, NoLim>>, <<NoLim, 2>>, <<2, NoLim>>}
 Disc == [k |-> "disc", pri |-> None, sec |-> None, dial |-> None]
 
 Init ==
